@@ -54,7 +54,8 @@ int  rep_unit_mine(long unit);             /* does this shard own the unit? (als
 int  rep_case(const char *fmt, ...) __attribute__((format(printf, 1, 2)));
 void rep_case_done(int nontrivial, uint64_t distinct_key, int key_is_unique_by_construction);
 void rep_viol(const char *key, const char *fmt, ...) __attribute__((format(printf, 2, 3)));
-void rep_note(const char *fmt, ...) __attribute__((format(printf, 1, 2)));  /* free text into evidence notes */
+void rep_note(const char *fmt, ...) __attribute__((format(printf, 1, 2)));
+void rep_inconclusive(const char *fmt, ...) __attribute__((format(printf, 1, 2)));  /* free text into evidence notes */
 void rep_count(const char *name, uint64_t add);   /* named counters, summed over shards by the driver */
 void rep_max(const char *name, uint64_t v);
 void rep_sample(const char *cls);          /* remember the current descriptor as a sample of class `cls` */
